@@ -12,7 +12,14 @@ Oracles:  canon(v) == canon(v2)  (``vf.canon``; additionally the library's own `
           C14N(xml(v)) == C14N(xml(v2)),  schema validity,  and for XML in which optional parts are absent:
           every absent member reads as what the schema documentation declares as implied value (differential: the same
           XML with the implied literal written explicitly must read equal), else as None / empty / the constructor's
-          default - and never as an object that is shared with another instance.
+          default - and never as an object that is shared with another instance: every mutable part of the value that was read
+          (any depth, ``vf.c05_alias``) is compared by identity with a second parse, a constructed instance and all class-level
+          default objects, and one value is edited in place while the other one, later parses / instances and their XML are watched.
+
+Namespace configurations (``w_nsconfig``, class ``NsCfg``): the same round trip with NamespaceHelpers that use other prefixes and / or a
+default namespace, composed into documents the three ways the library does it, and ``as_etree_node`` with the prefix maps the library
+uses elsewhere ({} / one namespace); xsi:type values must be resolvable by a peer (keys ``ns.<family>[.<composition>].…``).
+The validator the library builds for itself (``schema_resolver.mk_schema_validator``) must agree with the independent oracle.
 """
 from __future__ import annotations
 
@@ -21,6 +28,7 @@ import traceback
 
 from lxml import etree
 
+from .. import c05_alias as alias
 from .. import core
 from .. import xmlgen as xg
 from .. import xsdoracle as xo
@@ -36,15 +44,80 @@ IMPLIED_NOT_MODELLED = {('CodedValue', 'CodingSystem'), ('Translation', 'CodingS
 # =============================================================================================
 # writing / reading one value with the real code
 # =============================================================================================
+class NsCfg:
+    """One way of handing namespaces to the writers (everything but the default configuration of the main loop).
+
+    containers (``mk_node`` / ``mk_state_node`` / ``update_node`` take the NamespaceHelper of the caller):
+        helper   'default' | 'other_prefixes' | 'default_ns' (participant model is the default namespace) | both
+        comp     how the node gets into its document:
+                 'parent'       mk_node(tag, helper, parent_node) - what ContainerListProperty does; the wrapper declares the three
+                                namespaces with prefixes of its own (w0, w1, w2), so the node has to declare what it uses itself
+                 'update_node'  SubElement(parent, tag, nsmap=helper.partial_map(PM, XSI)) + update_node(node, helper) - what
+                                mdibbase.make_descriptor_node does; same wrapper
+                 'append'       parent.append(mk_state_node(tag, helper)) into a parent created with nsmap=helper.ns_map - what
+                                mdibbase._reconstruct_mdib does
+    data types / messages (``as_etree_node(tag, ns_map)`` takes a prefix map):
+        'empty_map' {} (the library: RetrievabilityInfo, header block), 'own_ns_map' only the namespace of the element itself
+        (the library: partial_map(WSD) for wsd:AppSequence), 'other_prefixes', 'default_ns' (namespace of the element is default)
+    """
+
+    def __init__(self, name, family, helper=None, comp=None):
+        self.name, self.family, self.helper_name, self.comp = name, family, helper, comp
+        self.kp = f'ns.{family}.' + (f'{comp}.' if comp else '')
+
+    def __repr__(self):
+        return self.name
+
+
+_HELPERS = {}
+
+
+def ns_helpers() -> dict:
+    """the NamespaceHelper variants (built with the library's own constructor)"""
+    if not _HELPERS:
+        from enum import Enum
+
+        from sdc11073.namespaces import NamespaceHelper, PrefixesEnum, PrefixNamespace, default_ns_helper
+        renamed = {'PM': 'pm', 'MSG': 'mm', 'EXT': 'e', 'XSI': 'i', 'WSA': 'a', 'WSE': 'ev', 'WSD': 'd', 'DPWS': 'dp', 'WSX': 'mex'}
+        other = Enum('OtherPrefixes', {m.name: PrefixNamespace(renamed.get(m.name, m.prefix), m.namespace, m.schema_location_url,
+                                                               m.local_schema_file) for m in PrefixesEnum}, type=PrefixNamespace)
+        pm_ns = PrefixesEnum.PM.namespace
+        _HELPERS.update({'default': default_ns_helper, 'other_prefixes': NamespaceHelper(other),
+                         'default_ns': NamespaceHelper(PrefixesEnum, default_ns=pm_ns),
+                         'other_prefixes_default_ns': NamespaceHelper(other, default_ns=pm_ns),
+                         '_enums': (PrefixesEnum, other), '_cls': NamespaceHelper})
+    return _HELPERS
+
+
+def container_cfgs() -> list[NsCfg]:
+    out = []
+    for helper, family in (('default', 'default'), ('other_prefixes', 'other_prefixes'), ('default_ns', 'default_ns'),
+                           ('other_prefixes_default_ns', 'default_ns')):
+        for comp in ('parent', 'update_node', 'append'):
+            if helper == 'default' and comp == 'append':
+                continue        # the main loop
+            out.append(NsCfg(f'{helper}/{comp}', family, helper, comp))
+    return out
+
+
+def type_cfgs() -> list[NsCfg]:
+    return [NsCfg('empty_map', 'partial_map'), NsCfg('own_ns_map', 'partial_map'), NsCfg('other_prefixes', 'other_prefixes'),
+            NsCfg('default_ns', 'default_ns'), NsCfg('other_prefixes_default_ns', 'default_ns')]
+
+
+_ALL_NS = ('PM', 'MSG', 'EXT', 'XSI', 'WSA', 'WSE', 'WSD', 'DPWS', 'WSX')
+
+
 class Codec:
     """How one class is written to / read from XML with the library's own entry points."""
 
-    def __init__(self, info: xg.ClassInfo, oracle: xo.Oracle):
+    def __init__(self, info: xg.ClassInfo, oracle: xo.Oracle, cfg: NsCfg | None = None):
         from sdc11073.namespaces import default_ns_helper as nsh
         self.info = info
         self.cls = info.cls
         self.oracle = oracle
         self.nsh = nsh
+        self.cfg = cfg
         self.ctx, self.home = xg.schema_home(oracle.index, info)
         self.nsmap = nsh.partial_map(nsh.PM, nsh.MSG, nsh.EXT, nsh.XSI, nsh.WSA, nsh.WSE, nsh.WSD, nsh.DPWS, nsh.WSX)
         self.schema_mode = self._schema_mode()
@@ -80,10 +153,80 @@ class Codec:
             return node_type
         return etree.QName(xo.NS['pm'], 'Probe')
 
+    # ---- non-default namespace configurations ------------------------------------------------------------
+    def cfg_applicable(self) -> str | None:
+        """None, or why this configuration cannot be used for this class"""
+        cfg = self.cfg
+        if cfg is None or self.info.kind in ('state', 'descriptor'):
+            return None
+        if cfg.name.endswith('default_ns') and self.root_tag().namespace is None:
+            return 'root element is an unqualified probe element: it cannot live under a default namespace'
+        if cfg.name == 'empty_map' and self.root_tag().namespace is None:
+            # in a real document the element of a pm: / wsa: ... type is itself in that namespace, so the namespace is always
+            # declared where the members are written (lxml generates a prefix); the unqualified probe root would hide that
+            return 'root element is an unqualified probe element: with {} the namespace of the type itself would be undeclared'
+        return None
+
+    def default_namespace(self) -> str | None:
+        """the namespace that is the default namespace in the written XML under this configuration"""
+        cfg = self.cfg
+        if cfg is None:
+            return None
+        if self.info.kind in ('state', 'descriptor'):
+            return xo.NS['pm'] if cfg.helper_name.endswith('default_ns') else None
+        return self.root_tag().namespace if cfg.name.endswith('default_ns') else None
+
+    def _type_ns_map(self) -> dict:
+        cfg, hs = self.cfg, ns_helpers()
+        root_ns = self.root_tag().namespace
+        if root_ns is None and self.home is not None and self.home[0] in ('type', 'element'):
+            root_ns = xo.split_clark(self.home[1])[0]
+        if cfg.name == 'empty_map':
+            return {}
+        if cfg.name == 'own_ns_map':
+            own = [p for p in hs['_enums'][0] if p.namespace == root_ns]
+            return self.nsh.partial_map(*own[:1])
+        enum_cls = hs['_enums'][1 if cfg.name.startswith('other_prefixes') else 0]
+        helper = hs['_cls'](enum_cls, default_ns=root_ns if cfg.name.endswith('default_ns') else None)
+        return helper.partial_map(*[getattr(helper, n) for n in _ALL_NS])
+
+    def _write_container_cfg(self, obj):
+        from sdc11073.xml_types import msg_qnames, pm_qnames
+        cfg = self.cfg
+        helper = ns_helpers()[cfg.helper_name]
+        state = self.info.kind == 'state'
+        has_type = getattr(self.cls, 'NODETYPE', None) is not None
+        nsmap = dict(helper.ns_map) if cfg.comp == 'append' else {'w0': xo.NS['msg'], 'w1': xo.NS['pm'], 'w2': xo.XSI}
+        root = etree.Element(msg_qnames.GetMdStateResponse if state else msg_qnames.DescriptionModificationReport, nsmap=nsmap)
+        root.set('MdibVersion', '1')
+        root.set('SequenceId', 'urn:uuid:0b1b8a5c-2b0e-4c4e-9d7e-000000000001')
+        parent = etree.SubElement(root, msg_qnames.MdState if state else msg_qnames.ReportPart)
+        tag = pm_qnames.State if state else msg_qnames.Descriptor
+        if cfg.comp == 'parent':
+            node = obj.mk_node(tag, helper, parent, set_xsi_type=has_type)
+        elif cfg.comp == 'update_node':
+            node = etree.SubElement(parent, tag, nsmap=helper.partial_map(helper.PM, helper.XSI))
+            obj.update_node(node, helper, has_type)
+        else:
+            node = obj.mk_state_node(tag, helper, set_xsi_type=has_type) if state else obj.mk_node(tag, helper, set_xsi_type=has_type)
+            parent.append(node)
+        return root, node
+
     def write(self, obj):
         """-> (document root to validate / None, node of the object itself)"""
         from sdc11073.xml_types import msg_qnames, pm_qnames
         kind = self.info.kind
+        if self.cfg is not None:
+            if kind in ('state', 'descriptor'):
+                return self._write_container_cfg(obj)
+            node = obj.as_etree_node(self.root_tag(), self._type_ns_map())
+            if node is None:
+                return None, None
+            if self.info.key == 'mex_types.Metadata':
+                body = etree.Element(etree.QName(xo.NS['s12'], 'Body'), nsmap={'s12': xo.NS['s12']})
+                body.append(node)
+                return body, node
+            return node, node
         if kind == 'state':
             has_type = getattr(self.cls, 'NODETYPE', None) is not None
             node = obj.mk_state_node(pm_qnames.State, self.nsh, set_xsi_type=has_type)
@@ -195,91 +338,158 @@ class Checker:
         self.oracle = xo.oracle()
         self.infos = xg.enumerate_classes()
         self.reg = xg.class_registry(self.infos)
-        self.codecs: dict[str, Codec] = {}
+        self.codecs: dict = {}
+        self.class_parts = alias.class_level_parts([i.cls for i in self.infos])
+        self.lib_schema = None
+        try:    # the validator the library builds for itself (pysoap.msgfactory / msgreader do exactly this)
+            from sdc11073 import schema_resolver
+            from sdc11073.namespaces import PrefixesEnum, default_ns_helper
+            self.lib_schema = schema_resolver.mk_schema_validator(list(PrefixesEnum), default_ns_helper)
+            ctx.count('schema_resolver.validators_built')
+        except Exception as ex:  # noqa: BLE001
+            ctx.witness('schema_resolver.cannot_build', f'schema_resolver.mk_schema_validator fails for the bundled namespaces: {type(ex).__name__}',
+                        {'error': repr(ex)[:800]})
 
-    def codec(self, info) -> Codec:
-        if info.key not in self.codecs:
-            self.codecs[info.key] = Codec(info, self.oracle)
-        return self.codecs[info.key]
+    def codec(self, info, cfg: NsCfg | None = None) -> Codec:
+        key = (info.key, cfg.name if cfg is not None else None)
+        if key not in self.codecs:
+            self.codecs[key] = Codec(info, self.oracle, cfg)
+        return self.codecs[key]
 
     # ---- the round trip --------------------------------------------------------------------------------
-    def check_value(self, info: xg.ClassInfo, obj, shape, what='value') -> dict | None:  # noqa: PLR0911, PLR0912, C901
+    def check_value(self, info: xg.ClassInfo, obj, shape, what='value', cfg: NsCfg | None = None, directed=False) -> dict | None:  # noqa: PLR0911, PLR0912, PLR0915, C901
+        """One value through write -> validate -> read -> write.  ``cfg``: a non-default namespace configuration (its witness
+        keys carry the prefix ``ns.<family>.[<composition>.]``, its counters the prefix ``ns.``)."""
         ctx = self.ctx
-        codec = self.codec(info)
+        codec = self.codec(info, cfg)
+        kp = cfg.kp if cfg is not None else ''
+        cp = 'ns.' if cfg is not None else ''
         cname = info.name
-        c1 = canon(obj)
+
+        def witness(key, what, detail):
+            # a defect that shows in the default configuration shows in the others as well: reported once, under its plain key
+            # (both parts of a slice run in one process, the default configuration first)
+            if kp and key.startswith(kp) and key[len(kp):] in ctx.witness_counts:
+                ctx.count('ns.repeats_of_default_configuration_witnesses(suppressed)')
+                return
+            ctx.witness(key, what, detail)
+
+        c1 = canon(obj) if cfg is None else _prefix_blind(canon(obj))
         try:
             doc, node = codec.write(obj)
         except Exception as ex:  # noqa: BLE001
             txt = ''.join(traceback.format_exception_only(type(ex), ex))
             mem = _member_of_error(txt)
             key = f'write.{xg.declaring_class(self.reg.get(mem[0], [info.cls])[-1], mem[1])}.{mem[1]}' if mem else f'write.{cname}'
-            ctx.witness(key, f'writing a generated {what} of {cname} raises {type(ex).__name__}',
+            witness(kp + key, f'writing a generated {what} of {cname} raises {type(ex).__name__}' + _cfg_text(cfg),
                         {'class': info.key, 'canon': repr(c1)[:1500], 'error': txt[-900:]})
-            ctx.count('write.raised')
+            ctx.count(cp + 'write.raised')
             return None
         if doc is None:
-            ctx.count('write.returns_none')
+            ctx.count(cp + 'write.returns_none')
             return None
-        ctx.count('written')
+        ctx.count(cp + 'written')
         try:
             text1 = etree.tostring(doc)
             redoc = etree.fromstring(text1)
         except Exception as ex:  # noqa: BLE001
-            ctx.witness(f'serialize.{cname}', f'serialising / re-parsing the written tree raises {type(ex).__name__}',
+            witness(f'{kp}serialize.{cname}', f'serialising / re-parsing the written tree raises {type(ex).__name__}' + _cfg_text(cfg),
                         {'class': info.key, 'error': repr(ex)[:500], 'canon': repr(c1)[:1500]})
             return None
         node1 = codec.locate(redoc) if info.key != 'mex_types.Metadata' else redoc
         x1 = _clock_blind(c14n(redoc))   # taken now: readers hand out live child elements of this document (any-content members)
+        # ---- QNames in attribute content: xsi:type must be resolvable with the declarations the peer sees ---------------
+        if cfg is not None:
+            ctx.count('ns.xsi_type.documents_checked')
+            bad = _unresolvable_xsi_types(redoc, node1 if info.kind in ('state', 'descriptor') else None, self.oracle.index, ctx)
+            if bad:
+                ctx.count('ns.xsi_type.unresolvable')
+                for where, value, why in bad[:2]:
+                    witness(f'{kp}xsi_type_unresolvable.{where}',
+                                f'{cname}: xsi:type="{value}" written for the {where} element {why}' + _cfg_text(cfg),
+                                {'class': info.key, 'configuration': cfg.name, 'xml': text1[:2500].decode('utf-8', 'replace')})
+                return {'ok': False}    # schema rejection and read errors of this document are consequences
         # ---- schema ---------------------------------------------------------------------------------------
         if not codec.schema_mode.startswith('none'):
             try:
                 errors = codec.validate(redoc, redoc[0] if info.key == 'mex_types.Metadata' else node1)
             except Exception as ex:  # noqa: BLE001
                 errors = [f'validator raised {ex!r}']
-            ctx.count('schema.validated')
+            ctx.count(cp + 'schema.validated')
             if errors:
-                ctx.count('schema.rejected')
-                ctx.witness(f'schema.{_schema_key(errors, info.cls)}', f'{cname}: written XML is rejected by the bundled schema: {errors[0][:200]}',
+                ctx.count(cp + 'schema.rejected')
+                witness(f'{kp}schema.{_schema_key(errors, info.cls)}',
+                            f'{cname}: written XML is rejected by the bundled schema: {errors[0][:200]}' + _cfg_text(cfg),
                             {'class': info.key, 'errors': errors[:4], 'xml': text1[:3000].decode('utf-8', 'replace'), 'shape': repr(shape)[:400]})
+            # the library's own validator (schema_resolver.mk_schema_validator resolves the bundled files by schema location)
+            if codec.schema_mode in ('state', 'descriptor', 'element') and info.key != 'mex_types.Metadata' and self.lib_schema is not None:
+                ctx.count('schema_resolver.verdicts_compared')
+                lib_ok = bool(self.lib_schema.validate(redoc))
+                if lib_ok != (not errors):
+                    verdict = 'accepts' if lib_ok else 'rejects'
+                    last = '' if lib_ok else str(self.lib_schema.error_log.last_error)[:300]
+                    witness(f'{kp}schema_resolver.library_validator_{verdict}',
+                                f'{cname}: the validator built by schema_resolver.mk_schema_validator {verdict} a document that the bundled '
+                                f'schema files (loaded independently) {"reject" if lib_ok else "accept"}: {last or errors[0][:200]}',
+                                {'class': info.key, 'xml': text1[:2500].decode('utf-8', 'replace')})
         # ---- read back ------------------------------------------------------------------------------------
         try:
             obj2 = codec.read(node1, obj)
         except Exception as ex:  # noqa: BLE001
             txt = traceback.format_exc()
-            ctx.count('read.raised')
-            ctx.witness(f'read.{_exc_site(ex)}', f'reading back the XML written for a {cname} raises {type(ex).__name__}',
+            ctx.count(cp + 'read.raised')
+            witness(f'{kp}read.{_exc_site(ex)}', f'reading back the XML written for a {cname} raises {type(ex).__name__}' + _cfg_text(cfg),
                         {'class': info.key, 'error': txt[-1200:], 'xml': text1[:3000].decode('utf-8', 'replace')})
             return None
-        ctx.count('read_back')
-        c2 = canon(obj2)
+        ctx.count(cp + 'read_back')
+        c2 = canon(obj2) if cfg is None else _prefix_blind(canon(obj2))
         ok = True
         if c1 != c2:
             ok = False
-            ctx.count('roundtrip.canon_mismatch')
+            ctx.count(cp + 'roundtrip.canon_mismatch')
             for path, left, right in canon_diff(c1, c2, limit=4):
                 key_part = blame(obj, path, codec.nsh, codec.nsmap)
-                ctx.witness(f'roundtrip.{key_part}', f'{cname}: member {path} changes in write -> read: {_brief(left)} -> {_brief(right)}',
+                witness(f'{kp}roundtrip.{key_part}',
+                            f'{cname}: member {path} changes in write -> read: {_brief(left)} -> {_brief(right)}' + _cfg_text(cfg),
                             {'class': info.key, 'path': path, 'before': repr(left)[:600], 'after': repr(right)[:600],
                              'xml': text1[:2500].decode('utf-8', 'replace')})
         else:
-            ctx.count('roundtrip.canon_equal')
+            ctx.count(cp + 'roundtrip.canon_equal')
+        # ---- the value that was read owns all of its parts --------------------------------------------------
+        if cfg is None:
+            p2 = alias.parts(obj2)
+            ctx.count('shared.read_values_checked')
+            ctx.count('shared.parts_checked', len(p2))
+            for i in p2:
+                if i in self.class_parts:
+                    owner, below, _o = self.class_parts[i]
+                    witness(f'shared_default.{owner}',
+                                f'{cname}: the value read from XML contains (at {p2[i][0] or "itself"}) the class-level default / implied object of '
+                                f'{owner}{"." + below if below else ""}: every instance read or created shares it',
+                                {'class': info.key, 'path': p2[i][0], 'part_type': type(p2[i][1]).__name__,
+                                 'xml': text1[:1500].decode('utf-8', 'replace')})
+                    break
+            both = alias.shared(alias.parts(obj), p2)
+            if both:
+                witness(f'shared_with_written.{xg.declaring_class(info.cls, _top(both[0][1]))}.{_top(both[0][1])}',
+                            f'{cname}: the value read back shares the {both[0][2]} at {both[0][1]} with the value that was written',
+                            {'class': info.key, 'shared': both[:5]})
         # the library's own notion of equality
         try:
             lib_eq = (obj == obj2) if type(obj).__eq__ is not object.__eq__ and _eq_meaningful(obj) else None
         except RuntimeError:
             lib_eq = None
-            ctx.count('lib_eq.refused(CodedValue comparison raises by design)')
+            ctx.count(cp + 'lib_eq.refused(CodedValue comparison raises by design)')
         except Exception as ex:  # noqa: BLE001
             lib_eq = None
-            ctx.count(f'lib_eq.raised.{type(ex).__name__}')
+            ctx.count(f'{cp}lib_eq.raised.{type(ex).__name__}')
         if lib_eq is not None:
-            ctx.count('lib_eq.evaluated')
+            ctx.count(cp + 'lib_eq.evaluated')
             if lib_eq is False and c1 == c2:
-                ctx.witness(f'lib_eq.{cname}', f'{cname}: canonical forms are equal but the library __eq__ says the re-read value differs',
+                witness(f'{kp}lib_eq.{cname}', f'{cname}: canonical forms are equal but the library __eq__ says the re-read value differs',
                             {'class': info.key, 'canon': repr(c1)[:1500]})
             if lib_eq is True and c1 != c2:
-                ctx.count('lib_eq.true_but_canon_differs')
+                ctx.count(cp + 'lib_eq.true_but_canon_differs')
         # ---- write again ------------------------------------------------------------------------------------
         try:
             doc2, _node2 = codec.write(obj2)
@@ -289,26 +499,43 @@ class Checker:
                 txt = ''.join(traceback.format_exception_only(type(ex), ex))
                 mem = _member_of_error(txt)
                 key = f'rewrite_raises.{mem[0]}.{mem[1]}' if mem else f'rewrite_raises.{cname}'
-                ctx.witness(key, f'{cname}: the value read back cannot be written again ({type(ex).__name__})',
+                witness(kp + key, f'{cname}: the value read back cannot be written again ({type(ex).__name__})' + _cfg_text(cfg),
                             {'class': info.key, 'error': txt[-900:], 'xml': text1[:2500].decode('utf-8', 'replace')})
             return {'ok': False}
         x2 = _clock_blind(c14n(redoc2))
         # writing the value again must not alter the XML document written before (the value read back refers to elements of that
         # document: a writer that moves instead of copies takes them out of it - a message still queued for sending would change)
         x1_after = _clock_blind(c14n(redoc))
-        ctx.count('rewrite.earlier_output_checked')
+        ctx.count(cp + 'rewrite.earlier_output_checked')
         if x1_after != x1:
             kind = _shrunk_parent_kind(x1, redoc)
-            ctx.witness(f'rewrite.earlier_output_altered.{kind}',
+            witness(f'{kp}rewrite.earlier_output_altered.{kind}',
                         f'{cname}: writing the value that was read back altered the XML document it was read from ({kind} content was moved out of it)',
                         {'class': info.key, 'before': x1[:2000], 'after': x1_after[:2000], 'diff_at': _first_diff(x1, x1_after)})
-        ctx.count('rewrite.compared')
+        ctx.count(cp + 'rewrite.compared')
         if x1 != x2:
-            ctx.count('rewrite.differs')
+            ctx.count(cp + 'rewrite.differs')
             if ok:  # a value difference was already reported with its member
-                ctx.witness(f'rewrite.{cname}', f'{cname}: value is stable but the second XML differs from the first',
+                witness(f'{kp}rewrite.{cname}', f'{cname}: value is stable but the second XML differs from the first' + _cfg_text(cfg),
                             {'class': info.key, 'first': x1[:2500], 'second': x2[:2500], 'diff_at': _first_diff(x1, x2)})
             ok = False
+        # ---- the ORIGINAL object written a second time: writing must not have changed it, nor depend on what was written before --
+        if directed and cfg is None:
+            try:
+                doc3, _n3 = codec.write(obj)
+                x3 = _clock_blind(c14n(etree.fromstring(etree.tostring(doc3))))
+                ctx.count('rewrite.same_object_compared')
+                if x3 != x1:
+                    witness(f'rewrite_same_object.{cname}', f'{cname}: writing the same object a second time yields another XML',
+                                {'class': info.key, 'first': x1[:2500], 'second': x3[:2500], 'diff_at': _first_diff(x1, x3)})
+                if canon(obj) != c1:
+                    d = canon_diff(c1, canon(obj), limit=1)
+                    witness(f'write_changes_value.{xg.declaring_class(info.cls, _top(d[0][0]))}.{_top(d[0][0])}' if d else f'write_changes_value.{cname}',
+                                f'{cname}: writing the value to XML changed the value itself' + (f' at {d[0][0]}: {_brief(d[0][1])} -> {_brief(d[0][2])}' if d else ''),
+                                {'class': info.key})
+            except Exception as ex:  # noqa: BLE001
+                witness(f'rewrite_same_object_raises.{cname}', f'{cname}: the object that was written once cannot be written a second time '
+                            f'({type(ex).__name__})', {'class': info.key, 'error': repr(ex)[-600:]})
         return {'ok': ok, 'xml': text1, 'obj2': obj2, 'node1': node1, 'redoc': redoc}
 
     # ---- absent optional parts --------------------------------------------------------------------------
@@ -333,8 +560,14 @@ class Checker:
                 if 'CurrentTimestampAttributeProperty' in names or not _present_in(node_a, prop, names):
                     continue
                 decl = gen._decl(codec.ctx, prop, names)  # noqa: SLF001
-                if decl is None or getattr(prop, '_sub_element_name', 1) is None:
+                if getattr(prop, '_sub_element_name', 1) is None:
                     continue
+                if decl is None:
+                    # an element the schema only admits as open content (xs:any minOccurs=0, e.g. wse:NotifyTo in wse:Delivery):
+                    # optional by the schema, whatever the library declares -> may be absent (the stripped XML is validated below)
+                    if not (isinstance(codec.ctx, xo.Complex) and codec.ctx.any_element and '_ElementBase' in names):
+                        continue
+                    decl = ('elem', xo.ElemDecl('', 0, None, None))
                 if (decl[0] == 'attr' and not decl[2]) or (decl[0] == 'elem' and decl[1].min == 0):
                     _remove(node_a, prop, names)
                     stripped.append(name)
@@ -404,6 +637,209 @@ class Checker:
                 ctx.witness(f'absent_shared.{decl_cls}.{name}',
                             f'{cls.__name__}.{name} absent in XML reads as an object that is shared with {shared_with}',
                             {'class': info.key, 'value_type': type(value).__name__, 'xml': text[:1500].decode('utf-8', 'replace')})
+        absent_names = {name for name, prop in xg.props_of(cls)
+                        if 'CurrentTimestampAttributeProperty' not in xg.mro_names(prop) and not _present_in(node_a, prop, xg.mro_names(prop))}
+        self.check_ownership(info, codec, gen, a, b, fresh, text, obj, absent_names)
+        self.check_update_of_used_instance(info, codec, gen, text, obj)
+
+    # ---- (3b) ... never a value belonging to another object: at any depth, and observed by editing in place ----------------
+    def check_ownership(self, info, codec, gen, a, b, fresh, text, obj, absent_names):  # noqa: PLR0913, C901, PLR0912
+        """``a`` and ``b`` were read from the same bytes (every schema-optional part absent), ``fresh`` was constructed.
+        No mutable part of ``a`` - at any depth - may be a part of ``b``, of ``fresh`` or of a class-level default object; and editing
+        ``a`` in place must change neither ``b``, nor what is read / constructed / written afterwards."""
+        ctx = self.ctx
+        cls = info.cls
+        xml = text[:1500].decode('utf-8', 'replace')
+        pa, pb, pf = alias.parts(a), alias.parts(b), alias.parts(fresh)
+        ctx.count('owned.classes_checked')
+        ctx.count('owned.parts_checked', len(pa))
+        ctx.count('owned.nested_parts_checked', sum(1 for path, _o in pa.values() if '.' in path or '[' in path))
+        reported = set()
+
+        def report(path, part, with_what):
+            member = _top(path)
+            key = f'{"absent_shared" if member in absent_names else "parse_shared"}.{xg.declaring_class(cls, member)}.{member}'
+            if key in reported:
+                return
+            reported.add(key)
+            ctx.witness(key, f'{cls.__name__}.{member}{" (absent in the XML)" if member in absent_names else ""} reads as a value whose part '
+                             f'{path} ({type(part).__name__}) is shared with {with_what}',
+                        {'class': info.key, 'path': path, 'part_type': type(part).__name__, 'xml': xml})
+
+        for i, (path, part) in pa.items():
+            if not path:
+                continue
+            if i in self.class_parts:
+                owner, below, _o = self.class_parts[i]
+                report(path, part, f'the class-level default object of {owner}{"." + below if below else ""} (and so with every other '
+                                   f'instance read or created)')
+            elif i in pb:
+                report(path, part, f'a second, independent parse of the same bytes (there: {pb[i][0]})')
+            elif i in pf:
+                report(path, part, f'a freshly constructed instance (there: {pf[i][0]})')
+        for i, (path, part) in pf.items():
+            if path and i in self.class_parts:
+                owner, below, _o = self.class_parts[i]
+                ctx.witness(f'constructed_shared.{owner}', f'a constructed {cls.__name__} holds at {path} the class-level default object of {owner}',
+                            {'class': info.key, 'path': path})
+                break
+        # ---- the multi step sequence: read A, read B, edit A in place ------------------------------------------------------
+        try:
+            ca0, cb0, cf0 = canon(a), canon(b), canon(fresh)
+            xb0 = _clock_blind(c14n(etree.fromstring(etree.tostring(codec.write(b)[0]))))
+        except Exception:  # noqa: BLE001
+            ctx.count('owned.edit_probe_setup_failed')
+            return
+        edits = alias.mutate_in_place(a)
+        ctx.count('owned.edit_probes')
+        ctx.count('owned.edits_made', edits)
+        if not edits:
+            return
+
+        def leak(kind, before, after, who):
+            for path, left, right in canon_diff(before, after, limit=2):
+                member = _top(path)
+                key = f'edit_leaks.{xg.declaring_class(cls, member)}.{member}'
+                if key in reported:
+                    continue
+                reported.add(key)
+                ctx.witness(key, f'{cls.__name__}: after a value read from XML was edited in place, {who} differs at {path}: '
+                                 f'{_brief(left)} -> {_brief(right)} (the edited part did not belong to the edited value alone)',
+                            {'class': info.key, 'observed_in': kind, 'path': path, 'before': repr(left)[:400], 'after': repr(right)[:400], 'xml': xml})
+
+        try:
+            leak('other_instance', cb0, canon(b), 'a second value that was read from the same bytes before')
+            c = codec.read(codec.locate(etree.fromstring(text)), obj)
+            leak('read_later', ca0, canon(c), 'a value read from the same bytes afterwards')
+            leak('constructed_later', cf0, canon(gen.construct(cls)), 'a newly constructed instance')
+            xb1 = _clock_blind(c14n(etree.fromstring(etree.tostring(codec.write(b)[0]))))
+            ctx.count('owned.edit_probe_comparisons', 4)
+            if xb1 != xb0 and not any(k.startswith('edit_leaks.') for k in reported):
+                ctx.witness(f'edit_leaks.{cls.__name__}', f'{cls.__name__}: after another value was edited in place, the XML written for this one changed',
+                            {'class': info.key, 'diff_at': _first_diff(xb0, xb1)})
+        except Exception as ex:  # noqa: BLE001
+            # the sentinel reached an object that is written / read here: that alone is a leak
+            if not any(k.startswith('edit_leaks.') for k in reported):
+                ctx.witness(f'edit_leaks.{cls.__name__}', f'{cls.__name__}: after a value read from XML was edited in place, reading / '
+                            f'constructing / writing ANOTHER value raises {type(ex).__name__}',
+                            {'class': info.key, 'error': repr(ex)[-500:], 'xml': xml})
+
+    # ---- reading into an instance that already holds a value ---------------------------------------------------------------
+    def check_update_of_used_instance(self, info, codec, gen, text, obj, _unused=None):
+        """``update_from_node`` (the reader behind every ``from_node``) on an instance that holds OTHER data: afterwards the instance
+        should equal what ``from_node`` yields for the same XML (parts that are absent in the XML fall back to their implied / default
+        value and do not keep what the instance held before).  The library itself only ever calls update_from_node on instances it has
+        just constructed, and the statement speaks of the value that reading yields, not of re-using instances: differences are
+        RECORDED (evidence key ``reuse_keeps_old(observation)``), they are not violations."""
+        ctx = self.ctx
+        cls = info.cls
+        if not hasattr(cls, 'update_from_node'):
+            return
+        try:
+            full = gen.instance(cls, xg.Plan(mode='max'))
+            doc, _ = codec.write(full)
+            used = codec.read(codec.locate(etree.fromstring(etree.tostring(doc))), full)
+            node = codec.locate(etree.fromstring(text))
+            expected = codec.read(codec.locate(etree.fromstring(text)), obj)
+            if getattr(used, 'is_descriptor_container', False):
+                used.parent_handle = expected.parent_handle
+            c_before = canon(used)
+            used.update_from_node(node)
+        except Exception:  # noqa: BLE001
+            ctx.count('reuse.setup_failed')
+            return
+        ctx.count('reuse.instances_updated')
+        ce, cu = canon(expected), canon(used)
+        if c_before == ce:
+            ctx.count('reuse.trivial(max value equals min value)')
+            return
+        ctx.count('reuse.compared')
+        props = dict(xg.props_of(cls))
+        diffs = canon_diff(ce, cu, limit=3)
+        if diffs:
+            ctx.count('reuse.differs(observation, not a violation)')
+        for path, left, right in diffs:
+            prop = props.get(_top(path))
+            # mechanism = the class that implements update_from_node for this kind of member
+            site = next((c.__name__ for c in type(prop).__mro__ if 'update_from_node' in c.__dict__), type(prop).__name__) if prop is not None else cls.__name__
+            ctx.extra.setdefault('reuse_keeps_old(observation)', []).append(
+                f'{site}: {cls.__name__}.update_from_node on an instance that held another value: member {path} ({type(prop).__name__}) reads '
+                f'{_brief(right)}, from_node of the same XML yields {_brief(left)}')
+
+
+def _prefix_blind(c):
+    """canonical form with raw XML members compared as infosets without prefixes (exclusive C14N keeps the prefixes, and under another
+    namespace configuration the library legitimately writes other prefixes for the same names)"""
+    if isinstance(c, tuple):
+        if len(c) == 2 and c[0] == 'xml' and isinstance(c[1], str):
+            try:
+                return ('xml*', _infoset(etree.fromstring(c[1].encode('utf-8'))))
+            except Exception:  # noqa: BLE001
+                return c
+        return tuple(_prefix_blind(x) for x in c)
+    return c
+
+
+def _infoset(el):
+    kids = tuple((_infoset(k), k.tail or '') for k in el if isinstance(k.tag, str))
+    return (el.tag, tuple(sorted(el.attrib.items())), el.text or '', kids)
+
+
+def _cfg_text(cfg) -> str:
+    return f' [namespace configuration {cfg.name}]' if cfg is not None else ''
+
+
+def _top(path: str) -> str:
+    """first member name of a canon / parts path ('CoreData.Middlename[0]' -> 'CoreData')"""
+    return re.split(r'[.\[#]', path, maxsplit=1)[0] if path else ''
+
+
+def _unresolvable_xsi_types(doc, object_node, index, ctx) -> list:
+    """[(root|child, attribute value, why)] for every xsi:type in ``doc`` (as a peer parsed it) whose QName cannot be resolved with the
+    namespace declarations in scope (XSD: no prefix = the default namespace) or does not name a type of the bundled schemas"""
+    out = []
+    for el in doc.iter():
+        if not isinstance(el.tag, str):
+            continue
+        value = el.get(XSI_TYPE)
+        if value is None:
+            continue
+        ctx.count('ns.xsi_type.attributes_checked')
+        prefix, _, local = value.rpartition(':')
+        ns = el.nsmap.get(prefix or None)
+        where = 'root' if el is object_node else 'child'
+        q = xo.clark(ns, local)
+        if prefix and ns is None:
+            out.append((where, value, f'uses the prefix "{prefix}" that is not declared in scope (declared: {sorted(k or "" for k in el.nsmap)})'))
+        elif ns != xo.XS and index.complex(q) is None and q not in index._stypes:  # noqa: SLF001
+            out.append((where, value, f'resolves to {q}, which is no type of the bundled schemas'
+                                      + (' (no default namespace is declared in scope)' if not prefix and ns is None else '')))
+    return out
+
+
+def _qname_namespaces(obj) -> set:
+    """namespaces of all QName values inside a value"""
+    found = set()
+    seen = set()
+
+    def walk(x, depth=0):
+        if depth > 40 or id(x) in seen:
+            return
+        if isinstance(x, etree.QName):
+            found.add(x.namespace)
+        elif isinstance(x, (list, tuple)):
+            seen.add(id(x))
+            for y in x:
+                walk(y, depth + 1)
+        elif callable(getattr(x, 'sorted_container_properties', None)) and not isinstance(x, type):
+            seen.add(id(x))
+            for name, _prop in x.sorted_container_properties():
+                try:
+                    walk(getattr(x, name), depth + 1)
+                except Exception:  # noqa: BLE001, S110
+                    pass
+    walk(obj)
+    return found
 
 
 def _remove(node, prop, names):
@@ -697,8 +1133,16 @@ def shape_of(info, label, obj):
 # =============================================================================================
 # worker
 # =============================================================================================
-def w_classes(ctx: core.Ctx, arg):
+def w_slice(ctx: core.Ctx, arg):
+    """one slice of the classes: the main round trip, then the namespace configurations (one Checker: the oracle, the library's
+    validator and the registry of class-level default objects are built once per process)"""
     chk = Checker(ctx)
+    w_classes(ctx, arg, chk)
+    w_nsconfig(ctx, arg, chk)
+
+
+def w_classes(ctx: core.Ctx, arg, chk=None):
+    chk = chk or Checker(ctx)
     by_key = {i.key: i for i in chk.infos}
     budget = arg['budget']
     for key in arg['classes']:
@@ -734,7 +1178,7 @@ def w_classes(ctx: core.Ctx, arg):
                 ctx.count('generator.raised')
                 continue
             shape = shape_of(info, label, obj)
-            res = chk.check_value(info, obj, shape)
+            res = chk.check_value(info, obj, shape, directed=label != 'rand')
             ctx.case(shape)
             ctx.count(f'plan.{label}')
             done += 1
@@ -755,6 +1199,62 @@ def w_classes(ctx: core.Ctx, arg):
             ctx.count(f'strategy.{k}', v)
         if done == 0:
             ctx.extra.setdefault('cannot_instantiate', []).append(f'{key}: generator produced no value ({sorted(gen_failed)[:2]})')
+
+
+def ns_plans(gen: xg.Gen, info: xg.ClassInfo, cctx, n_rand: int):
+    """values for the namespace configurations: minimal, maximal, every registered xsi:type substitution of every member
+    (xsi:type is where prefixes matter), then random ones"""
+    yield 'min', xg.Plan(mode='min')
+    yield 'max', xg.Plan(mode='max')
+    for m in xg.members(gen, info.cls, cctx):
+        if m.is_sub and hasattr(m.prop, 'value_class'):
+            try:
+                subs = gen.substitutions(m.prop, m.names, info.cls)
+            except Exception:  # noqa: BLE001
+                subs = []
+            if len(subs) > 1:
+                for sc in subs:
+                    yield 'subst', xg.Plan(mode='min', present={m.name: True}, lens={m.name: 1}, subst={m.name: sc})
+    for _ in range(n_rand):
+        yield 'rand', xg.Plan(mode='rand')
+
+
+def w_nsconfig(ctx: core.Ctx, arg, chk=None):
+    """the same round trip with the namespaces handed to the writers in other ways than the default one (see NsCfg)"""
+    chk = chk or Checker(ctx)
+    by_key = {i.key: i for i in chk.infos}
+    for key in arg['classes']:
+        info = by_key[key]
+        try:
+            xg.props_of(info.cls)
+            xg.Gen(ctx.rng('c05ns', key), chk.oracle.index).construct(info.cls)
+        except Exception:  # noqa: BLE001  (reported by w_classes)
+            continue
+        ctx.count('ns.classes')
+        cfgs = container_cfgs() if info.kind in ('state', 'descriptor') else type_cfgs()
+        for cfg in cfgs:
+            codec = chk.codec(info, cfg)
+            if codec.cfg_applicable() is not None:
+                ctx.count('ns.cfg_not_applicable(unqualified probe root)')
+                continue
+            gen = xg.Gen(ctx.rng('c05ns', key), chk.oracle.index)   # the same values under every configuration
+            default_ns = codec.default_namespace()
+            for label, plan in ns_plans(gen, info, codec.ctx, arg['n_rand']):
+                try:
+                    obj = gen.instance(info.cls, plan)
+                except Exception:  # noqa: BLE001  (generator gaps are listed by w_classes)
+                    ctx.count('ns.generator_failed')
+                    continue
+                if default_ns is not None and default_ns in _qname_namespaces(obj):
+                    # lxml 6.1 (trusted component) crashes the process when a QName whose namespace is bound as DEFAULT namespace
+                    # before any prefix is assigned to element text / an attribute - such values cannot be written at all
+                    ctx.count('ns.skipped(QName value in the default namespace crashes lxml)')
+                    continue
+                shape = shape_of(info, label, obj)
+                chk.check_value(info, obj, shape, cfg=cfg)
+                ctx.case((cfg.name,) + shape)
+                ctx.count(f'ns.cfg.{cfg.name}')
+                ctx.count(f'ns.family.{cfg.family}')
 
 
 def w_observations(ctx: core.Ctx, arg):  # noqa: ARG001
@@ -794,6 +1294,32 @@ def w_observations(ctx: core.Ctx, arg):  # noqa: ARG001
                        'instead of skipping it as the code below the unpacking intends (robustness of reading foreign input: property C13)')
     except Exception as ex:  # noqa: BLE001
         obs.append(f'(observation 3 could not be evaluated: {ex!r})')
+    try:   # xsi:type of a ContainerProperty member is resolved with the declarations of the PARENT element
+        from sdc11073.xml_types import msg_qnames
+        pm_ns, msg_ns = xo.NS['pm'], xo.NS['msg']
+        doc = etree.fromstring(f'<m:SetAlertState xmlns:m="{msg_ns}"><m:OperationHandleRef>op</m:OperationHandleRef>'
+                               f'<m:ProposedAlertState xmlns:p="{pm_ns}" xmlns:xsi="{xo.XSI}" xsi:type="p:AlertSignalState" '
+                               f'DescriptorHandle="d" ActivationState="On"/></m:SetAlertState>')
+        assert msg_qnames.SetAlertState == doc.tag
+        if not xo.oracle().validate(doc):
+            try:
+                msg_types.SetAlertState.from_node(doc)
+            except KeyError:
+                obs.append('ContainerProperty.get_py_value_from_node resolves the xsi:type QName with node.nsmap of the PARENT element: a schema-valid '
+                           'msg:SetAlertState whose msg:ProposedAlertState declares the prefix used in its xsi:type on itself (as many serialisers '
+                           'do) cannot be read (KeyError). ContainerListProperty uses the nsmap of the element itself. Today hidden in the '
+                           "library's own round trip because its writer takes the prefix from the parent as well "
+                           '(see witness ns.partial_map.xsi_type_unresolvable.child); reading foreign lexical forms: property C13')
+    except Exception as ex:  # noqa: BLE001
+        obs.append(f'(observation 4 could not be evaluated: {ex!r})')
+    try:   # lxml crash
+        obs.append('lxml 6.1.x terminates the process (segmentation fault) when a QName whose namespace is bound as the DEFAULT namespace '
+                   "before any prefix (nsmap={None: ns, 'p': ns} - what NamespaceHelper(default_ns=ns).partial_map yields) is assigned to "
+                   'element text or to an attribute value (NodeTextQNameProperty, NodeTextQNameListProperty, QNameAttributeProperty): not '
+                   'evaluated here (it would kill the worker); values with such QNames are skipped under the default_ns configurations '
+                   '(counter ns.skipped(...)); lxml is a trusted component')
+    except Exception:  # noqa: BLE001, S110
+        pass
     ctx.extra['observations_not_counted_as_violations'] = obs
     ctx.count('observations.evaluated', len(obs))
 
@@ -810,15 +1336,39 @@ def run(ctx: core.Ctx):
                 'presence masks of the optional members for n<=6 else single/pairwise, list lengths 0/1/2/5 per list member, every enum member, '
                 'every registered xsi:type substitution, corner strings per string member) + seeded random fills up to the budget. '
                 'distinct = (class, plan kind, per top-level member: absent / list length+item class / enum value / string length class / '
-                'value class); every case writes, validates, reads and re-writes at least one element, so every case is non-trivial')
+                'value class); every case writes, validates, reads and re-writes at least one element, so every case is non-trivial. '
+                'Namespace configurations (w_nsconfig): per class minimal, maximal, every xsi:type substitution and some random values are '
+                'round-tripped again with the namespaces handed to the writers in other ways: containers with NamespaceHelpers that use other '
+                'prefixes and / or the participant model as default namespace, composed into a document by mk_node(parent_node), by '
+                'SubElement+update_node, and by append(mk_state_node()) as mdibbase does; data types / messages with as_etree_node prefix maps '
+                '{} / own namespace only / other prefixes / default namespace (distinct additionally by configuration). '
+                'Per class once: XML with all schema-optional parts absent is read twice, compared part by part (object identity at any depth) '
+                'with the other parse, a constructed instance and all class-level default objects, then one of the two values is edited in '
+                'place and the other value, a later parse, a later constructed instance and the XML written for them must not change')
     ctx.extra['classes_enumerated'] = len(infos)
     ctx.extra['classes_by_module'] = {m: sum(1 for i in infos if i.module == m) for m, _ in xg.MODULES}
     # cost-balanced jobs: round-robin over classes sorted by number of members
     order = sorted(infos, key=lambda i: -len(_safe_props(i.cls)))
     njobs = 16 if ctx.quick else 48
-    jobs = [['w_classes', {'classes': [i.key for i in order[k::njobs]], 'budget': budget, 'sample': k < 3}] for k in range(njobs)]
+    jobs = [['w_slice', {'classes': [i.key for i in order[k::njobs]], 'budget': budget, 'sample': k < 3, 'n_rand': ctx.pick(6, 120)}]
+            for k in range(njobs)]
     jobs.append(['w_observations', {}])
     core.fanout(ctx, MODULE, 'dispatch', jobs, timeout=ctx.pick(600.0, 3000.0))
+    # namespace configurations
+    ctx.floor('ns.classes', int(len(infos) * 0.9))
+    ctx.floor('ns.roundtrip.canon_equal', ctx.pick(5000, 80000))
+    ctx.floor('ns.schema.validated', ctx.pick(4000, 60000))
+    ctx.floor('ns.xsi_type.attributes_checked', ctx.pick(3000, 50000))
+    ctx.floor('ns.family.other_prefixes', ctx.pick(1500, 20000))
+    ctx.floor('ns.family.default_ns', ctx.pick(1500, 20000))
+    ctx.floor('ns.family.partial_map', ctx.pick(1500, 20000))
+    # ownership of the parts of a value that was read
+    ctx.floor('shared.read_values_checked', ctx.pick(20000, 600000))
+    ctx.floor('owned.classes_checked', 200)
+    ctx.floor('owned.nested_parts_checked', 150)
+    ctx.floor('owned.edit_probes', 150)
+    ctx.floor('rewrite.same_object_compared', ctx.pick(5000, 5000))
+    ctx.floor('schema_resolver.verdicts_compared', ctx.pick(8000, 250000))
     ctx.floor('classes.exercised', int(len(infos) * 0.9))
     ctx.floor('schema.validated', ctx.pick(15000, 500000))
     ctx.floor('roundtrip.canon_equal', ctx.pick(20000, 600000))
@@ -837,6 +1387,12 @@ def run(ctx: core.Ctx):
         '(not counted as a violation)',
         'ClockState.DateAndTime is rewritten with the current time on every serialisation and is excluded from all comparisons',
         'lxml / libxml2 (serialiser, parser, schema validator) are trusted',
+        'namespace configurations: lxml crashes the process when a QName is written whose namespace is bound as default namespace before any '
+        'prefix; values holding such a QName are skipped under the default-namespace configurations (counter ns.skipped...)',
+        'namespace configurations: raw XML members (extensions, any content) are compared as infosets without prefixes; the unqualified probe '
+        'root of the schema oracle is not used with {} or a default namespace (the element of a real document is in the namespace of its type)',
+        'composition "append" mirrors mdibbase._reconstruct_mdib: the parent is created with nsmap=helper.ns_map and the node that '
+        'mk_state_node / mk_node returned is appended (lxml drops declarations that repeat a namespace already bound by an ancestor)',
     ]
 
 
